@@ -74,7 +74,7 @@ func generate() {
 	sym := []byte{0x1b, '[', '1', ';', 'H', 'm', 'x'}
 	maxLen := 4
 	if run.Thorough() {
-		maxLen = 5
+		maxLen = 6
 	}
 	var enum func(prefix []byte, left int)
 	enum = func(prefix []byte, left int) {
@@ -98,9 +98,9 @@ func generate() {
 	for l := 0; l <= maxLen+1; l++ {
 		enumLen(tsym, l, func(b []byte) { do("trim " + hx.Hex(b)) })
 	}
-	nPure := 1500
+	nPure := 6000
 	if run.Thorough() {
-		nPure = 30000
+		nPure = 120000
 	}
 	for i := 0; i < nPure; i++ {
 		do("defuse " + hx.Hex(randLine(r, 30)))
@@ -145,9 +145,9 @@ func generate() {
 	// ---- bodies, boards, sequences ---------------------------------------------------------------------------
 	pairs := [][2]string{{"CodingMan", "WhoAmI"}, {"Kahou2", "WhoAmI"}, {"test0", "EditExp"}, {"CodingMan", "EditExp"},
 		{"SYSOP", "WhoAmI"}, {"SYSOP", "EditExp"}, {"CodingMan", "Note"}, {"SYSOP", "Note"}, {"SYSOP", "Record"}, {"test0", "WhoAmI"}}
-	nHist := 25
+	nHist := 120
 	if run.Thorough() {
-		nHist = 260
+		nHist = 2500
 	}
 	for h := 0; h < nHist; h++ {
 		reset()
@@ -175,6 +175,29 @@ func generate() {
 			}
 			post(q)
 		}
+	}
+
+	// ---- write failures: the article file cannot grow beyond the limit -----------------------------------------
+	nFail := 10
+	if run.Thorough() {
+		nFail = 120
+	}
+	for h := 0; h < nFail; h++ {
+		reset()
+		p := pairs[r.Intn(len(pairs))]
+		q0 := newReq(p[0], p[1])
+		q0.title = []byte("before the failure")
+		q0.lines = [][]byte{[]byte("ok")}
+		post(q0)
+		q := newReq(p[0], p[1])
+		q.title = randTitle(r, r.Intn(40), false)
+		for k := 0; k < 60; k++ {
+			q.lines = append(q.lines, r.Bytes(100, []byte("abcdefghij klmnop")))
+		}
+		do("postfail 3000 " + strings.TrimPrefix(q.line(), "post "))
+		q1 := newReq(p[0], p[1])
+		q1.title = []byte("after the failure")
+		post(q1)
 	}
 
 	// ---- malformed stream --------------------------------------------------------------------------------------
